@@ -191,6 +191,7 @@ async def scenario(loop, case, inject_step, info):
         info["event_steps"] = sorted({e["step"] for e in w.log.events if e.get("step", 0) > start_step})
         info["disposition_steps"] = sorted({e["step"] for e in w.log.events if e.get("step", 0) > start_step and e.get("k") == "call"
                                             and e.get("depth") == 0 and e.get("op") in ("ack", "nack", "reject", "requeue")})
+        info["double_settled"] = list(getattr(w.rig.server, "precondition_failed", [])) if kind == "rabbit" else []
         info["snapshot"] = w.rig.snapshot()
         info["stored"] = {i: w.rig.stored(i) for i in ids}
         ev = w.log.events
@@ -255,6 +256,9 @@ def classify(case, info, out, stats, ctxbase):
     kind = case["kind"]
     snap = info["snapshot"]
     death = case["fault"] == "death"
+    if info.get("double_settled"):
+        # seen at the server: one delivery answered twice (ack + reject, ...): "both completed and returned" at the wire
+        out.append(V("disposed_and_returned", kind, "settled-twice", f"{ctxbase}: the server received a second settlement for delivery tag(s) {[(t, how) for _, _, t, how in info['double_settled']][:4]} and closed the channel (406)"))
     for i in info["ids"]:
         stats["messages_classified"] += 1
         places = snap.get(i, [])
